@@ -14,6 +14,8 @@ IntS, BoolS, RealS, StrS = smt.IntS, smt.BoolS, smt.RealS, smt.StrS
 KIND_SORT = {"V": V, "b": BoolS, "i": IntS, "r": RealS, "s": StrS}
 ANN_KIND = {"V": "V", "bool": "b", "int": "i", "float": "r", "str": "s"}
 
+import itertools as _it
+_fc_ids = _it.count()
 rank = z3.Function("rank", V, IntS)
 FRONT = z3.Int("FRONT")   # allocation frontier of the outermost call: objects below it are the (immutable) inputs   # well-founded measure on acyclic values (assumption A-ACYCLIC where used)
 
@@ -1338,23 +1340,37 @@ class Engine:
             self.emit(fx, "comp-no-raise", e.lineno, si, z3.Not(cond), note="filter/element of the comprehension does not raise (%s)" % exc.what)
         if not all(si.heap.a[m].eq(before[m]) for m in HEAP_NAMES):
             raise OutOfSubset("filtered comprehension with an allocating element expression (line %d)" % e.lineno)
-        self.assumptions.add("A-FILTERCOMP: a filtered comprehension is over-approximated: every result item stems from a source item "
-                             "that passes the filter (order / completeness not modelled)")
+        # exact semantics through two ghost index maps: src (result position -> source position, strictly increasing) and
+        # pos (source position -> result position, for the source items that pass the filter)
         r = self.new_ref(ec, "list")
         arr = fresh("fcomp", smt.ArrIV)
         m_ = fresh("fcomp_len", IntS)
         st.assume(z3.And(m_ >= 0, m_ <= n))
-        j = fresh("cj", IntS)
-        q = fresh("cq", IntS)
-        sq = st.copy()
-        ecq = EC(sq)
-        ecq.fx = fx
-        self.bind_for_target(gen.target, get(q), ecq, e.lineno)
-        cq = [self.tb(self.ev(c, ecq), ecq) for c in gen.ifs]
-        vq = self.ev(e.elt, ecq)
+        src = z3.Function("fcomp_src!%d" % next(_fc_ids), IntS, IntS)
+        pos = z3.Function("fcomp_pos!%d" % next(_fc_ids), IntS, IntS)
+        j = z3.Int("cj!")
+        q = z3.Int("cq!")
         from .tr import forall as _forall
-        st.assume(_forall([j], z3.Implies(z3.And(j >= 0, j < m_),
-                                          z3.Exists([q], z3.And(q >= 0, q < n, z3.And(cq), arr[j] == toV(vq)))), [arr[j]]))
+
+        def at(idx):
+            sq = st.copy()
+            ecq = EC(sq)
+            ecq.fx = fx
+            self.bind_for_target(gen.target, get(idx), ecq, e.lineno)
+            cq_ = [self.tb(self.ev(c, ecq), ecq) for c in gen.ifs]
+            return z3.And(cq_), toV(self.ev(e.elt, ecq))
+        cond_src, val_src = at(src(j))
+        # every result item is the element of the source item it stems from, which passes the filter; order is kept
+        st.assume(_forall([j], z3.Implies(z3.And(j >= 0, j < m_), z3.And(src(j) >= 0, src(j) < n, cond_src, arr[j] == val_src,
+                                                                        pos(src(j)) == j)), [arr[j]]))
+        st.assume(_forall([j], z3.Implies(z3.And(j >= 0, j + 1 < m_), src(j) < src(j + 1)), [src(j)]))
+        # completeness: every source item that passes the filter has its position in the result
+        cond_q, val_q = at(q)
+        src_item = get(q)
+        trig = toV(src_item) if not isinstance(src_item, tuple) else None
+        body = z3.Implies(z3.And(q >= 0, q < n, cond_q), z3.And(pos(q) >= 0, pos(q) < m_, src(pos(q)) == q, arr[pos(q)] == val_q))
+        st.assume(_forall([q], body, [trig] if trig is not None else [pos(q)]))
+        st.assume(_forall([q], body, [pos(q)]))
         self.list_set_all(ec, r, m_, arr)
         return tV(V.ref(r))
 
